@@ -23,7 +23,9 @@ RULE = ("seeded simple loop-free graphs with 1..9 vertices (thorough ..11) incl.
         "max_size in {0,2,3,4,5}; 1-3 consecutive covers on the same graph object, in 40% of runs with edges moved in between "
         "(vertex and edge counts unchanged); shuffle schedules uniform/identity/reverse/"
         "rotation/adjacent swaps; aborts mid-shuffle then a new cover; non-trivial = graph has >= 2 edges; distinct = "
-        "distinct execution digests; thorough tier only: one cycle of 6e5 vertices (more than a million trivial cliques) per invocation")
+        "distinct execution digests; 0.4% of runs: a complete graph of 12-16 vertices plus a pendant edge; thorough tier only: one "
+        "cycle of 6e5 vertices (more than a million trivial cliques) and one 21-/22-clique with a triangle and a pendant edge "
+        "attached (2-4 million nested cliques, limit 0 / 100 / 2^31) per invocation")
 ASSUMPTIONS = ["oracle enumerates all cliques by brute force over vertex subsets grown from adjacency (independent of "
                "nx.enumerate_all_cliques)", "vertex labels are non-negative ints (label parsing splits on '-')"]
 REAL = ["gcmpy.covers.mpcc.MPCC", "networkx enumerate_all_cliques (inside the library)", "CPython random.shuffle"]
@@ -76,7 +78,18 @@ def generate(prng, tier, index):
         n = prng.choice((600000, 650000))
         return {"variant": "clean", "nodes": None, "edges": None, "cycle": n, "limits": [0], "policy": {"shuffle": ["uniform"]},
                 "attrs": False, "scale": True}
+    if tier == "thorough" and index == 1:
+        # scale in the OTHER direction (thorough tier only, ~1-2 minutes, ~1 GB): one clique of 21-22 vertices, i.e. 2-4
+        # million cliques nested inside each other, with an unbounded or effectively unbounded size limit
+        return {"variant": "clean", "nodes": None, "edges": None, "bigclique": prng.choice((21, 21, 22)),
+                "limits": [0, prng.choice((100, 2 ** 31))], "policy": {"shuffle": ["uniform"]}, "attrs": False, "scale": True}
     nodes, es = gen_graph(prng, tier == "thorough")
+    if prng.random() < 0.004:
+        # a complete graph beyond the usual sizes (4e3 - 6.5e4 nested cliques) plus a pendant edge
+        k = prng.randrange(12, 17)
+        nodes = list(range(k + 1))
+        es = [[a, b] for a in range(k) for b in range(a + 1, k)] + [[0, k]]
+        prng.shuffle(es)
     variant = "faults" if index % 5 == 4 else "clean"
     ncalls = prng.choice((1, 1, 2))
     sc = {"variant": variant, "nodes": nodes, "edges": es,
@@ -197,7 +210,62 @@ def verify(sc, ctx, G, R, limit, tag, edges=None):
         ctx.probe("cover_has_clique_of_3_or_more")
 
 
+def execute_bigclique(sc, ctx):
+    """K_n plus a pendant edge at vertex 0 and a triangle hanging off vertex 1; limit 0 or >= n.  The greedy cover is
+    forced: the n-clique (unique largest), then the triangle, then the pendant edge."""
+    for limit in sc["limits"]:
+        _bigclique_once(sc, ctx, limit)
+
+
+def _bigclique_once(sc, ctx, limit):
+    P = "C10"
+    n = sc["bigclique"]
+    G = nx.complete_graph(n)
+    G.add_edge(0, n)
+    G.add_edges_from([(1, n + 1), (1, n + 2), (n + 1, n + 2)])
+    E = G.number_of_edges()
+    src = ctx.source("order", sc.get("policy"))
+    st, R = ctx.call(src, MPCC, G, limit, budget=None, label="MPCC[big clique]")
+    if st != "ok":
+        ctx.violate(f"{P}.raised", f"MPCC(max_size={limit}) on K_{n} plus a pendant edge and a triangle: {st} {describe_exc(R) if st == 'raised' else ''}")
+        return
+    ctx.probe("bigclique_run_order", n)
+    ctx.check(f"{P}.same"); ctx.check(f"{P}.labelled"); ctx.check(f"{P}.complete"); ctx.check(f"{P}.ids"); ctx.check(f"{P}.greedy")
+    if R.number_of_nodes() != n + 3 or R.number_of_edges() != E:
+        ctx.violate(f"{P}.same", f"cover has {R.number_of_nodes()} vertices and {R.number_of_edges()} edges, the graph {n + 3} and {E}")
+        return
+    by = {}
+    for u, v, d in R.edges(data=True):
+        lab = d.get("clique")
+        if not isinstance(lab, str):
+            ctx.violate(f"{P}.labelled", f"edge {sorted((u, v))} carries no cover label")
+            return
+        by.setdefault(lab, []).append(frozenset((u, v)))
+    want = {frozenset(range(n)): n * (n - 1) // 2, frozenset((1, n + 1, n + 2)): 3, frozenset((0, n)): 1}
+    got, ids = {}, set()
+    for lab, es in by.items():
+        size, members, cid = parse(lab)
+        if cid in ids:
+            ctx.violate(f"{P}.ids", f"id {cid} used by two labels")
+            return
+        ids.add(cid)
+        if size != len(set(members)) or {frozenset(p) for p in combinations(sorted(set(members)), 2)} != set(es):
+            ctx.violate(f"{P}.complete", f"label of size {size} with {len(set(members))} members is carried by {len(es)} edges "
+                                         f"that are not exactly the pairs of its members")
+            return
+        got[frozenset(members)] = len(es)
+    if got != want:
+        big = max((len(m) for m in got), default=0)
+        ctx.violate(f"{P}.greedy", f"K_{n} (+ triangle + pendant edge), max_size={limit}: cover cliques of sizes "
+                                    f"{sorted((len(m) for m in got), reverse=True)[:6]}..., the largest clique ({n} vertices) must be "
+                                    f"one cover clique (largest found: {big})")
+    ctx.nedges = E
+    ctx.result(n, limit, sorted(len(m) for m in got))
+
+
 def execute_scale(sc, ctx):
+    if sc.get("bigclique"):
+        return execute_bigclique(sc, ctx)
     P = "C10"
     n = sc["cycle"]
     G = nx.cycle_graph(n)
